@@ -17,7 +17,7 @@ CLAUSES = {
     "no-output": "a refused set-up writes no output record",
 }
 BOUNDS = {
-    "quick": "base scenarios: forward/reversed x 1 or 2 forcing files (3 frames) x discrete/continuous release, Nsteps 3; fault parameters symbolic: coverage faults in whole seconds (frames off the step grid, duration with a symbolic sub-step remainder), frame order offsets in [-4, 8] steps, release steps in [-6, 10], subgrid integers in [-9, 9] on a non-square 12x8 grid",
+    "quick": "base scenarios: forward/reversed x 1 or 2 forcing files (3 frames) x discrete/continuous release, Nsteps 3; fault parameters symbolic: coverage faults in whole seconds (frames off the step grid, duration with a symbolic sub-step remainder), frame order offsets in [-4, 8] steps, release steps in [-6, 10], subgrid integers in [-9, 9] on a non-square 12x8 grid; two frames inside one model step (symbolic offset 1..dt-1); the only release row after the last whole step (symbolic remainder 1..dt-1); only mult = 0 rows in the window; plug-in module that does not exist (exit status)",
     "thorough": "same with 4 frames and Nsteps 4",
 }
 ASSUMES = ["any exception (SystemExit or other) before the first record counts as refusal; the exception class is listed"]
